@@ -15,7 +15,15 @@
    binds the loop target in the environment it merges the loop's result from
    (witness: `for x in xs: pass ; return x`).  Proved instead: the refutations,
    the partial statements excluding exactly that arm, and the full statements
-   for the repaired rule (fixes/C15-for-target-scope.diff). *)
+   for the repaired rule (fixes/C15-for-target-scope.diff).
+
+   Scope of the semantics: every iterable of a comprehension sees the enclosing
+   bindings plus the earlier targets — the scoping the checker assumes.  The
+   runtime executes a Python comprehension, in which an iterable other than
+   the first sees the comprehension's own (possibly not yet bound) targets
+   instead; that divergence is outside these theorems and is reported by the
+   check as the finding `comprehension_later_iterable_reads_own_target`
+   (fixes/C15-comprehension-later-iterable-scope.diff). *)
 From Coq Require Import List Bool Arith.
 From FpyV Require Import Lang.Defined Lang.DefinedProofs.
 Import ListNotations.
